@@ -1,6 +1,7 @@
 import HavocVerif.Lemmas.CanIReadIff
 import HavocVerif.Lemmas.Utf16
 import HavocVerif.Spec.C03
+import HavocVerif.Lemmas.Register
 /-
   C03 — What an agent reports is what the teamserver records and shows.
   Property theorems only (helper lemmas live in Lemmas/).  Every theorem here is
@@ -68,5 +69,108 @@ example : ∀ f ∈ [Field.int32 4294967295, .bytes [1, 2, 3], .int64 0, .bool t
 example : ∀ c ∈ [0x41, 0x1F600, 0xFFFD, 0], isScalar c = true := by decide
 example : Parser.readFields ⟨encodeFields [.int32 7, .bytes [9]] ++ [1, 2, 3], true⟩ [.int32, .bytes]
     = ([.int32 7, .bytes [9]], ⟨[1, 2, 3], true⟩) := by decide
+
+
+/-! ### registration and the session table -/
+
+/-- A registration built the way the Demon builds it (key, IV, metadata encrypted after
+    them) creates a session whose id is the sender's id and whose key, IV and every
+    metadata field are the ones sent — for every key/IV (incl. the all-zero key), every
+    cipher, every field value. -/
+theorem register_faithful (ksFor : Bytes → Bytes → KeyStream) (key iv : Bytes) (id : Nat)
+    (strs nums : List Field) (hk : key.length = 32) (hiv : iv.length = 16) (hid : id < 4294967296)
+    (hs : strs.map Field.kind = strKinds) (hn : nums.map Field.kind = numKinds)
+    (hwf : ∀ f ∈ strs ++ nums, f.wf) :
+    parseRegister id ksFor (demonInitBody ksFor key iv id (strs ++ nums))
+      = some ⟨id, key, iv, strs ++ nums⟩ := by
+  unfold parseRegister demonInitBody
+  have hlen : ¬ ((key ++ iv ++ (if allZero key = true then encodeFields (.int32 id :: (strs ++ nums))
+      else xcrypt (ksFor key iv) (encodeFields (.int32 id :: (strs ++ nums))))).length < 48) := by
+    simp [hk, hiv]; omega
+  simp only [hlen, if_false]
+  have t32 : ∀ x : Bytes, (key ++ iv ++ x).take 32 = key := by
+    intro x; rw [List.append_assoc, List.take_left' hk]
+  have d32 : ∀ x : Bytes, ((key ++ iv ++ x).drop 32).take 16 = iv := by
+    intro x; rw [List.append_assoc, List.drop_left' hk, List.take_left' hiv]
+  have d48 : ∀ x : Bytes, (key ++ iv ++ x).drop 48 = x := by
+    intro x; exact List.drop_left' (by simp [hk, hiv])
+  rw [t32, d32, d48]
+  have hbody : (if allZero key = true then
+        (if allZero key = true then encodeFields (.int32 id :: (strs ++ nums))
+          else xcrypt (ksFor key iv) (encodeFields (.int32 id :: (strs ++ nums))))
+      else xcrypt (ksFor key iv)
+        (if allZero key = true then encodeFields (.int32 id :: (strs ++ nums))
+          else xcrypt (ksFor key iv) (encodeFields (.int32 id :: (strs ++ nums)))))
+      = encodeFields (.int32 id :: (strs ++ nums)) := by
+    by_cases hz : allZero key = true
+    · simp [hz]
+    · simp [hz, Havoc.xcrypt_involutive]
+  rw [hbody]
+  unfold registerOf
+  have hall : ∀ f ∈ Field.int32 id :: (strs ++ nums), f.wf := by
+    intro f hf; simp only [List.mem_cons] at hf
+    rcases hf with rfl | hf
+    · exact hid
+    · exact hwf f hf
+  have hkinds : (Field.int32 id :: (strs ++ nums)).map Field.kind = registerKinds := by
+    simp [Field.kind, hs, hn, registerKinds_eq]
+  have hr := readFields_encode (Field.int32 id :: (strs ++ nums)) [] hall
+  simp only [List.append_nil, hkinds] at hr
+  simp only [guard_of_encoded id strs nums hid hs hn hwf, if_true, hr]
+
+/-- a session is only ever created under the id named in the packet header -/
+theorem registered_id_is_sender (ksFor : Bytes → Bytes → KeyStream) (hdrId : Nat) (buf : Bytes) (s : Session)
+    (h : parseRegister hdrId ksFor buf = some s) : s.id = hdrId := parseRegister_id hdrId ksFor buf s h
+
+/-- identity invariant, one step: registrations / re-registrations never change an existing
+    session's id, key or IV and never create a second session with an id already present -/
+theorem handleInit_inv (ksFor : Bytes → Bytes → KeyStream) (s : Sessions) (hdrId : Nat) (buf : Bytes)
+    (hnd : (s.map (·.id)).Nodup) :
+    ((handleInit ksFor s hdrId buf).1.map (·.id)).Nodup ∧
+      ∃ extra, (handleInit ksFor s hdrId buf).1 = s ++ extra ∧ extra.length ≤ 1 := by
+  unfold handleInit
+  split
+  · exact ⟨hnd, [], by simp, by simp⟩
+  · rename_i hnone
+    split
+    · rename_i sess hp
+      have hid := parseRegister_id _ _ _ _ hp
+      refine ⟨?_, [sess], rfl, by simp⟩
+      rw [List.map_append, List.nodup_append]
+      refine ⟨hnd, by simp, ?_⟩
+      intro a ha b hb
+      simp only [List.map_cons, List.map_nil, List.mem_singleton] at hb
+      subst hb
+      rw [hid]
+      intro e; subst e
+      simp only [List.mem_map] at ha
+      obtain ⟨x, hx, hxe⟩ := ha
+      have := List.find?_eq_none.mp hnone x hx
+      simp [hxe] at this
+    · exact ⟨hnd, [], by simp, by simp⟩
+
+/-- identity invariant over any sequence of registration packets (arbitrary bytes) -/
+theorem identity_invariant (ksFor : Bytes → Bytes → KeyStream) (pkts : List (Nat × Bytes)) :
+    let final := pkts.foldl (fun s p => (handleInit ksFor s p.1 p.2).1) ([] : Sessions)
+    (final.map (·.id)).Nodup := by
+  suffices h : ∀ (s : Sessions), (s.map (·.id)).Nodup →
+      ((pkts.foldl (fun s p => (handleInit ksFor s p.1 p.2).1) s).map (·.id)).Nodup from h [] (by simp)
+  induction pkts with
+  | nil => intro s h; simpa using h
+  | cons p ps ih =>
+    intro s h
+    simp only [List.foldl_cons]
+    exact ih _ (handleInit_inv ksFor s p.1 p.2 h).1
+
+/-- the reply to a registration is the agent id under the session key (read back by the Demon) -/
+theorem register_reply (ksFor : Bytes → Bytes → KeyStream) (key iv : Bytes) (id : Nat) :
+    (if allZero key then initReply ksFor key iv id else xcrypt (ksFor key iv) (initReply ksFor key iv id))
+      = le32 id := by
+  unfold initReply
+  by_cases hz : allZero key = true
+  · simp [hz]
+  · simp [hz, Havoc.xcrypt_involutive]
+
+example : strKinds = [ReadType.bytes, .bytes, .bytes, .bytes, .bytes] ∧ numKinds.length = 16 := by decide
 
 end Havoc.C03
